@@ -182,7 +182,7 @@ func (g *uaGen) table(name string, es []ua.VerifRegEntry) (string, error) {
 		rows = append(rows, fmt.Sprintf("  (%d, %d, %q, %s)", ns, id, e.Type.Elem().Name(), s))
 	}
 	sort.Strings(rows)
-	return fmt.Sprintf("Definition %s : list (N * N * string * ty) := [\n%s\n].", name, strings.Join(rows, ";\n")), nil
+	return fmt.Sprintf("Definition %s : list (Z * Z * string * ty) := [\n%s\n].", name, strings.Join(rows, ";\n")), nil
 }
 
 func genUaTypes(repo string) (string, string, error) {
@@ -222,26 +222,26 @@ func genUaTypes(repo string) (string, string, error) {
 
 	var b strings.Builder
 	b.WriteString("(* GENERATED by go/cmd/translate (uatypes) from package ua by reflection. Do not edit. *)\n")
-	b.WriteString("From Coq Require Import NArith ZArith List String.\nFrom Opcua Require Import Model.CodecTypes.\nImport ListNotations.\nOpen Scope N_scope.\n\n")
+	b.WriteString("From Coq Require Import NArith ZArith List String.\nFrom Opcua Require Import Model.CodecTypes.\nImport ListNotations.\nOpen Scope string_scope.\nOpen Scope Z_scope.\n\n")
 	for _, d := range g.defs {
 		b.WriteString(d + "\n")
 	}
 	b.WriteString("\n" + svc + "\n\n" + eo + "\n\n")
-	fmt.Fprintf(&b, "Definition variant_types : list (N * ty) := [\n%s\n].\n\n", strings.Join(vrows, ";\n"))
+	fmt.Fprintf(&b, "Definition variant_types : list (Z * ty) := [\n%s\n].\n\n", strings.Join(vrows, ";\n"))
 	fmt.Fprintf(&b, "Definition xml_body_ty : ty := %s.\n\n", xml)
 	var all []string
 	for _, t := range g.order {
 		all = append(all, g.names[t])
 	}
 	fmt.Fprintf(&b, "Definition all_structs : list ty := [%s].\n\n", strings.Join(all, "; "))
-	fmt.Fprintf(&b, "Definition go_null : N := %d.\nDefinition go_f32qnan : N := %d.\nDefinition go_f64qnan : N := %d.\n", uint64(ua.VerifNull), uint64(ua.VerifF32QNaN), uint64(ua.VerifF64QNaN))
+	fmt.Fprintf(&b, "Definition go_null : Z := %d.\nDefinition go_f32qnan : Z := %d.\nDefinition go_f64qnan : Z := %d.\n", uint64(ua.VerifNull), uint64(ua.VerifF32QNaN), uint64(ua.VerifF64QNaN))
 	fmt.Fprintf(&b, "Definition go_MaxVariantArrayLength : Z := %d.\n", ua.MaxVariantArrayLength)
-	fmt.Fprintf(&b, "Definition go_variant_masks : list N := [%d; %d].\n", ua.VariantArrayDimensions, ua.VariantArrayValues)
-	fmt.Fprintf(&b, "Definition go_datavalue_masks : list N := [%d; %d; %d; %d; %d; %d].\n", ua.DataValueValue, ua.DataValueStatusCode, ua.DataValueSourceTimestamp, ua.DataValueServerTimestamp, ua.DataValueSourcePicoseconds, ua.DataValueServerPicoseconds)
-	fmt.Fprintf(&b, "Definition go_diag_masks : list N := [%d; %d; %d; %d; %d; %d; %d].\n", ua.DiagnosticInfoSymbolicID, ua.DiagnosticInfoNamespaceURI, ua.DiagnosticInfoLocalizedText, ua.DiagnosticInfoLocale, ua.DiagnosticInfoAdditionalInfo, ua.DiagnosticInfoInnerStatusCode, ua.DiagnosticInfoInnerDiagnosticInfo)
-	fmt.Fprintf(&b, "Definition go_loctext_masks : list N := [%d; %d].\n", ua.LocalizedTextLocale, ua.LocalizedTextText)
-	fmt.Fprintf(&b, "Definition go_extobj_masks : list N := [%d; %d; %d].\n", ua.ExtensionObjectEmpty, ua.ExtensionObjectBinary, ua.ExtensionObjectXML)
-	fmt.Fprintf(&b, "Definition go_nodeid_types : list N := [%d; %d; %d; %d; %d; %d].\n", ua.NodeIDTypeTwoByte, ua.NodeIDTypeFourByte, ua.NodeIDTypeNumeric, ua.NodeIDTypeString, ua.NodeIDTypeGUID, ua.NodeIDTypeByteString)
+	fmt.Fprintf(&b, "Definition go_variant_masks : list Z := [%d; %d].\n", ua.VariantArrayDimensions, ua.VariantArrayValues)
+	fmt.Fprintf(&b, "Definition go_datavalue_masks : list Z := [%d; %d; %d; %d; %d; %d].\n", ua.DataValueValue, ua.DataValueStatusCode, ua.DataValueSourceTimestamp, ua.DataValueServerTimestamp, ua.DataValueSourcePicoseconds, ua.DataValueServerPicoseconds)
+	fmt.Fprintf(&b, "Definition go_diag_masks : list Z := [%d; %d; %d; %d; %d; %d; %d].\n", ua.DiagnosticInfoSymbolicID, ua.DiagnosticInfoNamespaceURI, ua.DiagnosticInfoLocalizedText, ua.DiagnosticInfoLocale, ua.DiagnosticInfoAdditionalInfo, ua.DiagnosticInfoInnerStatusCode, ua.DiagnosticInfoInnerDiagnosticInfo)
+	fmt.Fprintf(&b, "Definition go_loctext_masks : list Z := [%d; %d].\n", ua.LocalizedTextLocale, ua.LocalizedTextText)
+	fmt.Fprintf(&b, "Definition go_extobj_masks : list Z := [%d; %d; %d].\n", ua.ExtensionObjectEmpty, ua.ExtensionObjectBinary, ua.ExtensionObjectXML)
+	fmt.Fprintf(&b, "Definition go_nodeid_types : list Z := [%d; %d; %d; %d; %d; %d].\n", ua.NodeIDTypeTwoByte, ua.NodeIDTypeFourByte, ua.NodeIDTypeNumeric, ua.NodeIDTypeString, ua.NodeIDTypeGUID, ua.NodeIDTypeByteString)
 	return "UaTypes.v", b.String(), nil
 }
 
